@@ -70,6 +70,85 @@ pub fn step(data: &[u8]) -> Result<(), String> {
     })
 }
 
+static QUIET: std::sync::atomic::AtomicBool = std::sync::atomic::AtomicBool::new(false);
+/// fuzz processes: send the guest's console output (fd 1) to /dev/null once and for all (libFuzzer talks on fd 2)
+pub fn quiet_forever() {
+    if !QUIET.swap(true, std::sync::atomic::Ordering::Relaxed) {
+        std::mem::forget(crate::engine::stdio::Redirect::start(false));
+    }
+}
+
+/// Raw instruction *streams*: the first 40 bytes seed the start state (pointer registers into the data zones,
+/// stack, CCR, bus setting, code placement), the rest (up to 96 bytes) is executed as code, instruction after
+/// instruction on one emulator state in lockstep with the reference, until the stream ends, the reference
+/// stops constraining the outcome (undefined encoding, odd target ...) or both sides fault. Oracle: after
+/// every instruction registers, CCR, PC, written bytes; the whole memory at the end; the charge of every
+/// instruction executed while the bus controller still has the start setting; no panic ever.
+pub fn prog(data: &[u8]) -> Result<(), String> {
+    use crate::engine::program::*;
+    use crate::refmodel::exec::{total_cost, Outcome};
+    if data.len() < 44 {
+        return Ok(());
+    }
+    let d = draws(&data[..40], 24);
+    let mut e = Ent::new(&d);
+    let base = match e.below(3) {
+        0 => 0xffc000 + 2 * e.below(0x400),
+        1 => crate::gen::LOAD_BASE + 2 * e.below(0x400),
+        _ => 0x5ffe00 + 2 * e.below(0xd0), // close to the end of DRAM: long streams run off the end
+    };
+    let mut er = [0u32; 8];
+    for r in er.iter_mut().take(7) {
+        *r = match e.below(4) {
+            0 | 1 => e.data_addr(&[crate::gen::Region::Ram, crate::gen::Region::Dram, crate::gen::Region::Vector], 8, 2) | e.upper_byte(),
+            2 => e.pick(&checks::c15::ADVERSARIAL),
+            _ => e.u32(),
+        };
+    }
+    er[7] = if e.chance(1, 2) { 0xfff400 + 4 * e.below(0x80) } else { 0x5e8000 + 4 * e.below(0x1000) } | e.upper_byte();
+    let ccr = e.u8();
+    let bus = e.bus_cfg();
+    let code: Vec<u8> = data[40..].iter().copied().take(96).collect();
+    let stop = base + (code.len() as u32 & !1);
+    let prog = Prog { image: vec![(base, code)], er, ccr, pc: base, bus };
+    let quirks = open_quirks_all();
+    let _quiet = if QUIET.load(std::sync::atomic::Ordering::Relaxed) { None } else { Some(crate::engine::stdio::Redirect::start(false)) };
+    with_emu(|emu| {
+        let opts = LsOpts { quirks: &quirks, max_steps: 64, full_dram: false, compare_memory: true };
+        let mut violation: Option<String> = None;
+        let mut cfg_dirty = false;
+        let out = lockstep(emu, &prog, &opts, &mut |v: &View| {
+            if let Some(step) = v.last {
+                if step.accesses.iter().any(|a| a.write && (0..a.size).any(|i| crate::engine::emu::is_bus_reg(a.addr.wrapping_add(i)))) {
+                    cfg_dirty = true;
+                }
+                if !cfg_dirty && matches!(step.outcome, Outcome::Ok) && v.idx > 0 {
+                    if let Some(exp) = total_cost(&step.cycles, &bus) {
+                        if exp != v.last_states {
+                            violation = Some(format!("instruction {} ({:?}) charged {} states; cycle table x cost rule under {:?} = {}", v.idx, step.decoded.class, v.last_states, bus, exp));
+                            return Ctl::Stop;
+                        }
+                    }
+                }
+            }
+            if v.pc == stop {
+                return Ctl::Stop;
+            }
+            Ctl::Step
+        });
+        if let Some(p) = out.panic {
+            return Err(format!("emulator panicked: {} (stream at {:06x})", p, base));
+        }
+        if let Some(m) = violation {
+            return Err(m);
+        }
+        match out.end {
+            End::Mismatch(m) => Err(format!("{} (stream at {:06x}, {} steps)", m, base, out.steps)),
+            _ => Ok(()),
+        }
+    })
+}
+
 pub fn elf(data: &[u8]) -> Result<(), String> {
     thread_local! {
         static LD: RefCell<Option<checks::c11::Loader>> = RefCell::new(None);
@@ -220,6 +299,15 @@ pub fn gen_corpus() -> i32 {
         let text: String = lines.iter().take(40).map(|l| format!("{}\n", l)).collect();
         write("fuzz_lines", &format!("lines{:02}", i), text.as_bytes());
     }
-    println!("corpus written: {} fuzz_step forms, 12 fuzz_elf, 24 fuzz_timer, 24 fuzz_lines", forms.len());
+    // fuzz_prog: 40 state bytes + the code of generated instruction soups
+    for i in 0..48 {
+        let d: Vec<u32> = (0..700).map(|_| u32::from_be_bytes([rnd(), rnd(), rnd(), rnd()])).collect();
+        let fl = [checks::soup::Flavor::All, checks::soup::Flavor::Mov, checks::soup::Flavor::Bit, checks::soup::Flavor::Ea][i % 4];
+        let soup = checks::soup::build(&mut Ent::new(&d), fl);
+        let mut f: Vec<u8> = (0..40).map(|_| rnd()).collect();
+        f.extend(soup.prog.image[0].1.iter().take(96));
+        write("fuzz_prog", &format!("soup{:02}", i), &f);
+    }
+    println!("corpus written: {} fuzz_step forms, 12 fuzz_elf, 24 fuzz_timer, 24 fuzz_lines, 48 fuzz_prog", forms.len());
     0
 }
